@@ -39,7 +39,17 @@ Actions and the code they transcribe (armi/settings)
                       the `versions` entry before it applies anything, so a `versions` entry that is no mapping fails
                       the whole read at once (StampRefused).
   Modified            Settings.modified(newSettings={s: r})                   duplicate, then assign on the duplicate
-  Duplicate(kind)     Settings.duplicate (= copy.deepcopy) / pickle round trip (__getstate__/__setstate__)
+  ModifiedObj         Settings.modified(newSettings={s: <Setting object>})    the Setting-object form: a Setting (here: a copy
+                                                                              from getSetting, given the new value) replaces
+                                                                              the duplicate's entry
+  ModifiedNewKey      Settings.modified(newSettings={<no setting's name>: v}) the new-key form: the duplicate (only) gains an
+                                                                              ad-hoc Setting "Xk" whose default is v; copies of
+                                                                              it keep it (__setstate__); the full style (and
+                                                                              medium after a file naming it) writes it; to an
+                                                                              object without it the name is just unknown
+  Duplicate(kind)     Settings.duplicate (= copy.deepcopy) / pickle round trip (__getstate__/__setstate__) /
+                      "titled": Settings.modified(caseTitle=...) -- the case-title form (the harness also requires the
+                      source object's path to be what it was)
   GetSet              Settings.getSetting(s) returns a copy of the Setting; assigning to it changes nothing
   Revert              Settings.revertToDefaults
 
@@ -51,8 +61,14 @@ Interpretation choices
     _applySettings and does not use it (suspect S7), so the replay of Read on files with old names is expected to expose it.
   * Copies "do not affect the original" is taken in both directions and for all live objects (OthersUntouched), and
     structurally: no mutable part is shared (observation `shared`, always empty here; the adapter computes it from object
-    identities of Setting objects and container values).
-  * Ad-hoc settings (Settings.modified with a name that is no setting creates one) are not modelled.
+    identities of Setting objects and container values), and every object is made of the same *kinds* of settings as a
+    fresh one (observation `kinds`, always empty here: the settings whose class in some object differs from the class a
+    fresh Settings object has for them -- a copy that holds the cross-section setting as a plain Setting cannot be written).
+  * Ad-hoc settings (Settings.modified with a name that is no setting creates one) are modelled as far as the copy clause
+    needs: which objects carry the one ad-hoc setting (`extra`), that copies inherit it, and how it shows in files.  Its
+    value is never changed in a behaviour.
+  * Settings.__setitem__ has one input form (a plain value).  The live Setting objects are also reachable through
+    Settings.items(); the harness rotates Assign/AssignBad through cs[name] = v, Setting.setValue(v) and Setting.value = v.
   * The order of the entries of a file matters only for what a *refused* read leaves applied.  A file the real writer
     produced is sorted by real setting name; the harness keeps the entries of a file it edits or writes by hand grouped
     in this module's entry order (a user may arrange a file as he likes), so the prediction "entries before the refused one
@@ -66,7 +82,9 @@ Clauses of the statement and the properties that state them
   refused when assigned / read, previous value in place        RefusalKeepsEverything, ReadRefusalKeepsPrevious,
                                                                  StoredValuesAreCanonical
   renamed settings accepted under old names                    RenameLands, UnknownNamesAreReportedAndIgnored
-  modified copies do not affect the original                   OthersUntouched, CopiesStartEqual, observation `shared`
+  modified copies do not affect the original                   OthersUntouched, CopiesStartEqual, AdHocStaysWithTheCopy,
+                                                                 observation `shared`; all input forms of modified():
+                                                                 plain value, Setting object, new key, case title
   (nested / plugin settings, all values: by instantiation -- SettingSchema_cat decides the concrete values per real setting)
 ***************************************************************************************************************)
 EXTENDS Integers, Sequences, FiniteSets, TLC
@@ -83,7 +101,8 @@ Order   == <<"P">> \o Generic \o <<"V", "Z">>    \* the writer's order (sorted b
 Names   == {Order[i] : i \in 1..Len(Order)}
 OldOf   == [n \in {"Po"} |-> "P"]           \* active renames
 Unknown == {"Zz"}
-FileNames == Names \cup DOMAIN OldOf \cup Unknown
+AdHoc   == "Xk"                            \* the ad-hoc setting Settings.modified creates for a name that is no setting
+FileNames == Names \cup DOMAIN OldOf \cup Unknown \cup {AdHoc}
 Stored  == {"d", "a", "b"}
 RawOk   == Stored \cup {"ca"}
 RawBad  == {"x"}
@@ -98,8 +117,9 @@ VARIABLES objs,    \* live Settings objects (1..k)
           file,    \* the settings file: [es: entries <<[n, t]>>, style, src: values of the writing object, clean: not edited]
           err,     \* outcome of the last call: "", "Invalid", "Nonexistent"
           inv,     \* names the last successful read reported as invalid (reader.invalidSettings)
-          last     \* the last action and the values before it (for the invariants and the emitted edge label)
-vars == <<objs, val, file, err, inv, last>>
+          extra,   \* the objects that carry the ad-hoc setting
+          last     \* the last action and the state before it (for the invariants and the emitted edge label)
+vars == <<objs, val, file, err, inv, extra, last>>
 
 NoFile == [es |-> <<>>, style |-> "none", src |-> AllD, clean |-> FALSE]
 EntryNames(f) == {f.es[i].n : i \in 1..Len(f.es)}
@@ -112,15 +132,17 @@ TypeOK ==
     /\ \A i \in 1..Len(file.es) : file.es[i].n \in FileNames /\ file.es[i].t \in Raw
     /\ err \in {"", "Invalid", "Nonexistent"}
     /\ inv \subseteq FileNames
+    /\ extra \subseteq objs
 
 Init == /\ objs = {1}
         /\ val = [o \in {1} |-> AllD]
         /\ file = NoFile
         /\ err = ""
         /\ inv = {}
-        /\ last = [a |-> [n |-> "Init"], pre |-> [o \in {1} |-> AllD]]
+        /\ extra = {}
+        /\ last = [a |-> [n |-> "Init"], pre |-> [o \in {1} |-> AllD], prex |-> {}]
 
-Did(a) == last' = [a |-> a, pre |-> val]
+Did(a) == last' = [a |-> a, pre |-> val, prex |-> extra]
 Fresh == Cardinality(objs) + 1
 
 \* ------------------------------------------------------------------------------------------------ objects, assignment
@@ -128,33 +150,35 @@ New ==
     /\ "copy" \in Ops \/ "io" \in Ops
     /\ Fresh <= MaxObj
     /\ objs' = objs \cup {Fresh} /\ val' = [o \in objs \cup {Fresh} |-> IF o = Fresh THEN AllD ELSE val[o]]
-    /\ err' = "" /\ UNCHANGED <<file, inv>> /\ Did([n |-> "New", id |-> Fresh])
+    /\ err' = "" /\ UNCHANGED <<file, inv, extra>> /\ Did([n |-> "New", id |-> Fresh])
 
 Assign(o, s, r) ==
     /\ "assign" \in Ops /\ Admits(s, r)
     /\ val' = [val EXCEPT ![o][s] = Canon(r)]
-    /\ err' = "" /\ UNCHANGED <<objs, file, inv>> /\ Did([n |-> "Assign", o |-> o, s |-> s, r |-> r])
+    /\ err' = "" /\ UNCHANGED <<objs, file, inv, extra>> /\ Did([n |-> "Assign", o |-> o, s |-> s, r |-> r])
 
 AssignBad(o, s) ==                       \* refused: the previous value stays
     /\ "assign" \in Ops
-    /\ err' = "Invalid" /\ UNCHANGED <<objs, val, file, inv>> /\ Did([n |-> "AssignBad", o |-> o, s |-> s, r |-> "x"])
+    /\ err' = "Invalid" /\ UNCHANGED <<objs, val, file, inv, extra>> /\ Did([n |-> "AssignBad", o |-> o, s |-> s, r |-> "x"])
 
 AssignUnknown(o, nm) ==                  \* neither unknown nor old names are settings of the object
     /\ "assign" \in Ops /\ nm \in DOMAIN OldOf \cup Unknown
-    /\ err' = "Nonexistent" /\ UNCHANGED <<objs, val, file, inv>> /\ Did([n |-> "AssignUnknown", o |-> o, nm |-> nm])
+    /\ err' = "Nonexistent" /\ UNCHANGED <<objs, val, file, inv, extra>> /\ Did([n |-> "AssignUnknown", o |-> o, nm |-> nm])
 
 Revert(o) ==
     /\ "misc" \in Ops
     /\ val' = [val EXCEPT ![o] = AllD]
-    /\ err' = "" /\ UNCHANGED <<objs, file, inv>> /\ Did([n |-> "Revert", o |-> o])
+    /\ err' = "" /\ UNCHANGED <<objs, file, inv, extra>> /\ Did([n |-> "Revert", o |-> o])
 
 GetSet(o, s, r) ==                       \* getSetting returns a copy: whatever is done to it stays with it
     /\ "misc" \in Ops /\ r \in Raw /\ (r \in RawOk => Admits(s, r))
     /\ err' = IF r \in RawBad THEN "Invalid" ELSE ""
-    /\ UNCHANGED <<objs, val, file, inv>> /\ Did([n |-> "GetSet", o |-> o, s |-> s, r |-> r])
+    /\ UNCHANGED <<objs, val, file, inv, extra>> /\ Did([n |-> "GetSet", o |-> o, s |-> s, r |-> r])
 
 \* ------------------------------------------------------------------------------------------------ writing
 UserSet == EntryNames(file) \cap Names   \* medium: the names the user's file mentions (exact current names only)
+AdHocWritten(o, style) ==                \* the ad-hoc setting is always at its default: full writes it, medium if the user's file named it
+    o \in extra /\ (style = "full" \/ (style = "medium" /\ AdHoc \in EntryNames(file)))
 Written(o, style) ==
     {s \in Names : \/ style = "full"
                    \/ val[o][s] # "d"
@@ -166,31 +190,34 @@ SeqOver(S) ==                            \* the members of S in the writer's ord
 Write(o, style) ==
     /\ "io" \in Ops /\ style \in Styles
     /\ style = "medium" => file.style # "none"
-    /\ LET ws == SeqOver(Written(o, style)) IN
-       file' = [es |-> [i \in 1..Len(ws) |-> [n |-> ws[i], t |-> val[o][ws[i]]]], style |-> style, src |-> val[o], clean |-> TRUE]
-    /\ err' = "" /\ UNCHANGED <<objs, val, inv>> /\ Did([n |-> "Write", o |-> o, style |-> style, user |-> SeqOver(UserSet)])
+    /\ LET ws == SeqOver(Written(o, style))
+           es == [i \in 1..Len(ws) |-> [n |-> ws[i], t |-> val[o][ws[i]]]] IN
+       file' = [es |-> IF AdHocWritten(o, style) THEN Append(es, [n |-> AdHoc, t |-> "d"]) ELSE es,
+                style |-> style, src |-> val[o], clean |-> TRUE]
+    /\ err' = "" /\ UNCHANGED <<objs, val, inv, extra>> /\ Did([n |-> "Write", o |-> o, style |-> style, user |-> SeqOver(UserSet)])
 
 \* -- a user edits the file
 SetBad(i) ==                             \* replace a value by one the setting refuses
-    /\ "tamper" \in Ops /\ i \in 1..Len(file.es) /\ file.es[i].t \in RawOk /\ file.es[i].n \notin Unknown
+    /\ "tamper" \in Ops /\ i \in 1..Len(file.es) /\ file.es[i].t \in RawOk /\ file.es[i].n \notin Unknown \cup {AdHoc}
     /\ file' = [file EXCEPT !.es[i].t = "x", !.clean = FALSE]
-    /\ err' = "" /\ UNCHANGED <<objs, val, inv>> /\ Did([n |-> "SetBad", i |-> i])
+    /\ err' = "" /\ UNCHANGED <<objs, val, inv, extra>> /\ Did([n |-> "SetBad", i |-> i])
 SetOld(i) ==                             \* use the old name of a renamed setting
     /\ "tamper" \in Ops /\ i \in 1..Len(file.es)
     /\ \E old \in DOMAIN OldOf : /\ OldOf[old] = file.es[i].n /\ old \notin EntryNames(file)
                                  /\ file' = [file EXCEPT !.es[i].n = old, !.clean = FALSE]
-    /\ err' = "" /\ UNCHANGED <<objs, val, inv>> /\ Did([n |-> "SetOld", i |-> i])
+    /\ err' = "" /\ UNCHANGED <<objs, val, inv, extra>> /\ Did([n |-> "SetOld", i |-> i])
 AddUnknown ==                            \* add a name no setting has
     /\ "tamper" \in Ops /\ file.style # "none" /\ "Zz" \notin EntryNames(file)
     /\ file' = [file EXCEPT !.es = Append(@, [n |-> "Zz", t |-> "a"]), !.clean = FALSE]
-    /\ err' = "" /\ UNCHANGED <<objs, val, inv>> /\ Did([n |-> "AddUnknown"])
+    /\ err' = "" /\ UNCHANGED <<objs, val, inv, extra>> /\ Did([n |-> "AddUnknown"])
 HandWrite(es) ==
     /\ "hand" \in Ops /\ es \in HandFiles
     /\ file' = [es |-> es, style |-> "hand", src |-> AllD, clean |-> FALSE]
-    /\ err' = "" /\ UNCHANGED <<objs, val, inv>> /\ Did([n |-> "HandWrite", es |-> es])
+    /\ err' = "" /\ UNCHANGED <<objs, val, inv, extra>> /\ Did([n |-> "HandWrite", es |-> es])
 
 \* ------------------------------------------------------------------------------------------------ reading
 Target(nm) == IF nm \in Names THEN nm ELSE IF nm \in DOMAIN OldOf THEN OldOf[nm] ELSE "none"
+Known(nm, o) == Target(nm) # "none" \/ (nm = AdHoc /\ o \in extra)        \* a name the reading object has a setting for
 Refused(e) == Target(e.n) # "none" /\ ~Admits(Target(e.n), e.t)
 FirstRefused(es) == IF \E i \in 1..Len(es) : Refused(es[i]) THEN CHOOSE i \in 1..Len(es) : Refused(es[i]) /\ \A j \in 1..(i - 1) : ~Refused(es[j])
                     ELSE 0
@@ -199,7 +226,7 @@ FirstRefused(es) == IF \E i \in 1..Len(es) : Refused(es[i]) THEN CHOOSE i \in 1.
 StampRefused(es) == \E i \in 1..Len(es) : es[i].n = "V" /\ Refused(es[i])
 RefusedAt(es) == IF StampRefused(es) THEN CHOOSE i \in 1..Len(es) : es[i].n = "V" ELSE FirstRefused(es)   \* 0: nothing refused
 AppliedBefore(es) == IF StampRefused(es) THEN 0 ELSE FirstRefused(es) - 1                                 \* entries applied before the refusal
-Applied(v, es, k) ==                     \* v after the first k entries (none of them refused)
+Applied(v, es, k) ==                     \* v after the first k entries (none of them refused); the ad-hoc entry holds its default
     LET F[i \in 0..k] == IF i = 0 THEN v
                          ELSE IF Target(es[i].n) = "none" THEN F[i - 1]
                          ELSE [F[i - 1] EXCEPT ![Target(es[i].n)] = Canon(es[i].t)]
@@ -210,25 +237,40 @@ Read(o) ==
        IF RefusedAt(es) = 0
        THEN /\ val' = [val EXCEPT ![o] = Applied(val[o], es, Len(es))]
             /\ err' = ""
-            /\ inv' = {es[i].n : i \in {j \in 1..Len(es) : Target(es[j].n) = "none"}}
+            /\ inv' = {es[i].n : i \in {j \in 1..Len(es) : ~Known(es[j].n, o)}}
        ELSE /\ val' = [val EXCEPT ![o] = Applied(val[o], es, AppliedBefore(es))]   \* the entries before the refused one stay applied
             /\ err' = "Invalid"
             /\ inv' = {}
-    /\ UNCHANGED <<objs, file>> /\ Did([n |-> "Read", o |-> o])
+    /\ UNCHANGED <<objs, file, extra>> /\ Did([n |-> "Read", o |-> o])
 
 \* ------------------------------------------------------------------------------------------------ copies
+Inherit(o) == IF o \in extra THEN extra \cup {Fresh} ELSE extra         \* a copy carries the ad-hoc setting iff its source does
 Modified(o, s, r) ==
     /\ "copy" \in Ops /\ Fresh <= MaxObj /\ Admits(s, r)
     /\ objs' = objs \cup {Fresh}
     /\ val' = [p \in objs \cup {Fresh} |-> IF p = Fresh THEN [val[o] EXCEPT ![s] = Canon(r)] ELSE val[p]]
+    /\ extra' = Inherit(o)
     /\ err' = "" /\ UNCHANGED <<file, inv>> /\ Did([n |-> "Modified", o |-> o, s |-> s, r |-> r, id |-> Fresh])
+ModifiedObj(o, s, r) ==                  \* the same change handed over as a Setting object
+    /\ "copy" \in Ops /\ Fresh <= MaxObj /\ Admits(s, r)
+    /\ objs' = objs \cup {Fresh}
+    /\ val' = [p \in objs \cup {Fresh} |-> IF p = Fresh THEN [val[o] EXCEPT ![s] = Canon(r)] ELSE val[p]]
+    /\ extra' = Inherit(o)
+    /\ err' = "" /\ UNCHANGED <<file, inv>> /\ Did([n |-> "ModifiedObj", o |-> o, s |-> s, r |-> r, id |-> Fresh])
+ModifiedNewKey(o) ==                     \* a name that is no setting: the copy, and only the copy, gains the ad-hoc setting
+    /\ "copy" \in Ops /\ Fresh <= MaxObj /\ o \notin extra
+    /\ objs' = objs \cup {Fresh}
+    /\ val' = [p \in objs \cup {Fresh} |-> IF p = Fresh THEN val[o] ELSE val[p]]
+    /\ extra' = extra \cup {Fresh}
+    /\ err' = "" /\ UNCHANGED <<file, inv>> /\ Did([n |-> "ModifiedNewKey", o |-> o, id |-> Fresh])
 ModifiedBad(o, s) ==                     \* the refused change raises out of modified(): no copy, nothing changed
     /\ "copy" \in Ops /\ Fresh <= MaxObj
-    /\ err' = "Invalid" /\ UNCHANGED <<objs, val, file, inv>> /\ Did([n |-> "ModifiedBad", o |-> o, s |-> s, r |-> "x"])
+    /\ err' = "Invalid" /\ UNCHANGED <<objs, val, file, inv, extra>> /\ Did([n |-> "ModifiedBad", o |-> o, s |-> s, r |-> "x"])
 Duplicate(o, kind) ==
     /\ "copy" \in Ops /\ Fresh <= MaxObj /\ kind \in CopyKinds
     /\ objs' = objs \cup {Fresh}
     /\ val' = [p \in objs \cup {Fresh} |-> IF p = Fresh THEN val[o] ELSE val[p]]
+    /\ extra' = Inherit(o)
     /\ err' = "" /\ UNCHANGED <<file, inv>> /\ Did([n |-> "Duplicate", o |-> o, kind |-> kind, id |-> Fresh])
 
 \* one named disjunct per action (TLC reports coverage per name)
@@ -243,26 +285,30 @@ DoSetOld        == \E i \in 1..Len(file.es) : SetOld(i)
 DoHandWrite     == \E es \in HandFiles : HandWrite(es)
 DoRead          == \E o \in objs : Read(o)
 DoModified      == \E o \in objs, s \in Names, r \in RawOk : Modified(o, s, r)
+DoModifiedObj   == \E o \in objs, s \in Names, r \in RawOk : ModifiedObj(o, s, r)
+DoModifiedNewKey == \E o \in objs : ModifiedNewKey(o)
 DoModifiedBad   == \E o \in objs, s \in Names : ModifiedBad(o, s)
 DoDuplicate     == \E o \in objs, kind \in CopyKinds : Duplicate(o, kind)
 Next == \/ New \/ DoAssign \/ DoAssignBad \/ DoAssignUnknown \/ DoGetSet \/ DoRevert \/ DoWrite \/ DoSetBad \/ DoSetOld
-        \/ AddUnknown \/ DoHandWrite \/ DoRead \/ DoModified \/ DoModifiedBad \/ DoDuplicate
+        \/ AddUnknown \/ DoHandWrite \/ DoRead \/ DoModified \/ DoModifiedObj \/ DoModifiedNewKey \/ DoModifiedBad \/ DoDuplicate
 Spec == Init /\ [][Next]_vars
 
 \* ------------------------------------------------------------------------------------------------ properties
 A == last.a
 Pre == last.pre
-OnObject == A.n \in {"Assign", "AssignBad", "AssignUnknown", "Revert", "GetSet", "Read", "Write", "Modified", "ModifiedBad", "Duplicate"}
+OnObject == A.n \in {"Assign", "AssignBad", "AssignUnknown", "Revert", "GetSet", "Read", "Write", "Modified", "ModifiedObj", "ModifiedNewKey",
+                     "ModifiedBad", "Duplicate"}
 
 \* -- write styles
 WrittenValuesAreCurrent ==               \* a written file holds, for each setting it mentions, the value the object has
-    A.n = "Write" => \A i \in 1..Len(file.es) : file.es[i].n \in Names /\ file.es[i].t = val[A.o][file.es[i].n]
+    A.n = "Write" => \A i \in 1..Len(file.es) : IF file.es[i].n = AdHoc THEN A.o \in extra /\ file.es[i].t = "d"
+                                                 ELSE file.es[i].n \in Names /\ file.es[i].t = val[A.o][file.es[i].n]
 ShortOmitsExactlyDefaults ==             \* ... and the short style mentions exactly the settings off their default (+ stamp)
     A.n = "Write" /\ file.style = "short" => EntryNames(file) = {s \in Names : val[A.o][s] # "d"} \cup {"V"}
-FullWritesAll == A.n = "Write" /\ file.style = "full" => EntryNames(file) = Names
+FullWritesAll == A.n = "Write" /\ file.style = "full" => EntryNames(file) = Names \cup (IF A.o \in extra THEN {AdHoc} ELSE {})
 MediumIsShortPlusUserSet ==              \* medium = short plus the settings the user's previous file mentioned by their current names
     A.n = "Write" /\ file.style = "medium" =>
-        EntryNames(file) = {s \in Names : val[A.o][s] # "d"} \cup {"V"} \cup {A.user[i] : i \in 1..Len(A.user)}
+        EntryNames(file) \ {AdHoc} = {s \in Names : val[A.o][s] # "d"} \cup {"V"} \cup {A.user[i] : i \in 1..Len(A.user)}
 NoDuplicateEntries == \A i, j \in 1..Len(file.es) : file.es[i].n = file.es[j].n => i = j
 
 \* -- round trip
@@ -274,7 +320,7 @@ RoundTripFresh ==                        \* any style, read into a fresh object:
     ReadOk /\ file.clean /\ Pre[A.o] = AllD => val[A.o] = file.src
 RoundTripFull ==                         \* full style, read into any object
     ReadOk /\ file.clean /\ file.style = "full" => val[A.o] = file.src
-UneditedFilesAreAccepted == A.n = "Read" /\ file.clean => err = "" /\ inv = {}
+UneditedFilesAreAccepted == A.n = "Read" /\ file.clean => err = "" /\ inv \subseteq {AdHoc}
 
 \* -- refusal
 RefusalKeepsEverything ==                \* a refused assignment (direct, through modified(), on a getSetting copy) changes nothing
@@ -294,13 +340,19 @@ RenameLands ==                           \* an entry under an active old name la
                  /\ file.es[i].n \notin inv
                  /\ LastEntryFor(OldOf[file.es[i].n], i) => val[A.o][OldOf[file.es[i].n]] = Canon(file.es[i].t)
 UnknownNamesAreReportedAndIgnored ==
-    ReadOk => inv = EntryNames(file) \cap Unknown
+    ReadOk => inv = (EntryNames(file) \cap Unknown) \cup (IF AdHoc \in EntryNames(file) /\ A.o \notin extra THEN {AdHoc} ELSE {})
 
 \* -- copies
 OthersUntouched ==                       \* whatever is done to or with one object leaves every other object as it was
     OnObject => \A p \in DOMAIN Pre : p # A.o => val[p] = Pre[p]
 CopiesStartEqual ==
     /\ A.n = "Duplicate" => val[A.id] = Pre[A.o] /\ val[A.o] = Pre[A.o]
-    /\ A.n = "Modified" => val[A.id] = [Pre[A.o] EXCEPT ![A.s] = Canon(A.r)] /\ val[A.o] = Pre[A.o]
+    /\ A.n \in {"Modified", "ModifiedObj"} => val[A.id] = [Pre[A.o] EXCEPT ![A.s] = Canon(A.r)] /\ val[A.o] = Pre[A.o]
+    /\ A.n = "ModifiedNewKey" => val[A.id] = Pre[A.o] /\ val[A.o] = Pre[A.o]
     /\ A.n = "New" => val[A.id] = AllD
+AdHocStaysWithTheCopy ==                 \* no action gives an existing object the ad-hoc setting or takes it away;
+    /\ \A p \in DOMAIN Pre : (p \in extra) = (p \in last.prex)                                       \* a new object has it iff
+    /\ A.n \in {"Modified", "ModifiedObj", "Duplicate"} => ((A.id \in extra) = (A.o \in last.prex))    \* its source had it, or it
+    /\ A.n = "ModifiedNewKey" => A.id \in extra /\ A.o \notin extra                                    \* was made by the new-key form
+    /\ A.n = "New" => A.id \notin extra
 =====================================================================================================
